@@ -6,7 +6,9 @@
 (*   [id, e, v, outs, runs]                                                *)
 (*   outs : the distinct observations  [r |-> "ok", e |-> tree, py |-> values pymbolic's own *)
 (*          evaluator gave at the points of the box] | [r |-> "err", v |-> error] | [r |-> "unser"] *)
-(*   runs : [ns, entry, k]  which setting / entry point produced outs[k]   *)
+(*   runs : [ns, entry, sh, k]  which setting / entry point / object-sharing variant of the input *)
+(*          (0 = nothing shared) produced outs[k]; a record of a history on one mapper           *)
+(*          (C10_Hist) has the one run of that step                                               *)
 (* The value of a returned tree is computed here (Eval), never in Python.  *)
 (* The A-layer's prediction and Python's own evaluation of the returned    *)
 (* tree are compared too, but only reported (DRIFT / EVALDIFF).            *)
@@ -46,8 +48,10 @@ EvalDiff(out) ==
         /\ IF IsErr(tv) \/ IsErr(pv) THEN ~(IsErr(tv) /\ IsErr(pv) /\ tv.e = pv.e)
            ELSE ~(IsNum(tv) /\ IsNum(pv) /\ ValEq(tv, pv))
 
-Drift(rec, j) ==
-    LET run == rec.runs[j] out == rec.outs[run.k] pred == Predicted(rec.e, rec.v, run.ns) IN
+\* (the prediction does not depend on the entry point, on the sharing variant or on the history:
+\* one comparison per distinct (setting, observation) pair)
+DriftP(rec, ns, k) ==
+    LET out == rec.outs[k] pred == Predicted(rec.e, rec.v, ns) IN
     IF out.r = "unser" \/ (pred.r = "err" /\ pred.v.e \in {"Unrep", "ZeroDivisionError", "TypeError"}) THEN FALSE
     ELSE IF pred.r # out.r THEN TRUE
     ELSE IF pred.r = "ok" THEN pred.e # out.e ELSE pred.v.e # out.v.e
@@ -60,7 +64,8 @@ Report ==
           bad == { k \in 1..Len(vs) : vs[k].v \notin {"OK", "SKIP", "REFUSED"} }
           RECURSIVE Pts(_)
           Pts(k) == IF k > Len(vs) THEN 0 ELSE vs[k].np + Pts(k + 1)
-          nDrift == Cardinality({ j \in 1..Len(rec.runs) : Drift(rec, j) })
+          drifting == { p \in { << rec.runs[j].ns, rec.runs[j].k >> : j \in 1..Len(rec.runs) } : DriftP(rec, p[1], p[2]) }
+          nDrift == Cardinality({ j \in 1..Len(rec.runs) : << rec.runs[j].ns, rec.runs[j].k >> \in drifting })
           nEvalDiff == Cardinality({ k \in 1..Len(rec.outs) : EvalDiff(rec.outs[k]) })
       IN /\ \A k \in bad : PrintT(ToJson([id |-> rec.id, v |-> vs[k].v, k |-> k, env |-> vs[k].env, ns |-> vs[k].ns,
                                           feats |-> SetToSeq(Features(rec.e, rec.v))]))
